@@ -21,22 +21,25 @@ C_LIB = ["allocate.c", "hashtab.c", "objstack.c", "vlobject.c", "yaep.c"]
 CXX_LIB = ["allocate.c", "hashtab.cpp", "objstack.cpp", "vlobject.cpp", "yaep.cpp"]
 
 # variant -> (lang, lib flags, driver flags, link flags, driver source, lib renames)
+# The *-small variants are compiled without -DNDEBUG, like the default CMake build: the assertions of the
+# containers and of the description parser are live there (those of yaep.c need -DYAEP_DEBUG, variant dbg).
 VARIANTS = {
     "asan":       dict(lang="c", flags=SAN + HOOK, drv="vdrv.c"),
-    "asan-small": dict(lang="c", flags=SAN + HOOK + SMALL, drv="vdrv.c"),
+    "asan-small": dict(lang="c", flags=SAN + HOOK + SMALL, drv="vdrv.c", ndebug=False),
     "asan++":     dict(lang="c++", flags=SAN + HOOK, drv="vdrv.c"),
-    "asan++-small": dict(lang="c++", flags=SAN + HOOK + SMALL, drv="vdrv.c"),
+    "asan++-small": dict(lang="c++", flags=SAN + HOOK + SMALL, drv="vdrv.c", ndebug=False),
     "plain":      dict(lang="c", flags=["-O2", "-g"] + HOOK, drv="vdrv.c"),
     "plain++":    dict(lang="c++", flags=["-O2", "-g"] + HOOK, drv="vdrv.c"),
     "vf":         dict(lang="c", flags=SAN + HOOK, drv="vdrv.c", renames=True),
+    "vf-small":   dict(lang="c", flags=SAN + HOOK + SMALL, drv="vdrv.c", renames=True, ndebug=False),
     "vf-plain":   dict(lang="c", flags=["-O2", "-g"] + HOOK, drv="vdrv.c", renames=True),
     "nohook":     dict(lang="c", flags=SAN, drv="vdrv.c"),
     "dbg":        dict(lang="c", flags=SAN + HOOK + ["-DYAEP_DEBUG"], drv="vdrv.c", ndebug=False),
     # container harness (C19)
     "cont":       dict(lang="c", flags=SAN, drv="cont.c", lib=["allocate.c", "hashtab.c", "objstack.c", "vlobject.c"]),
-    "cont-small": dict(lang="c", flags=SAN + SMALL, drv="cont.c", lib=["allocate.c", "hashtab.c", "objstack.c", "vlobject.c"]),
+    "cont-small": dict(lang="c", flags=SAN + SMALL, drv="cont.c", lib=["allocate.c", "hashtab.c", "objstack.c", "vlobject.c"], ndebug=False),
     "cont++":     dict(lang="c++", flags=SAN, drv="cont.c", lib=["allocate.c", "hashtab.cpp", "objstack.cpp", "vlobject.cpp"]),
-    "cont++-small": dict(lang="c++", flags=SAN + SMALL, drv="cont.c", lib=["allocate.c", "hashtab.cpp", "objstack.cpp", "vlobject.cpp"]),
+    "cont++-small": dict(lang="c++", flags=SAN + SMALL, drv="cont.c", lib=["allocate.c", "hashtab.cpp", "objstack.cpp", "vlobject.cpp"], ndebug=False),
 }
 
 
@@ -74,7 +77,8 @@ def _prune(keep):
         ents = [os.path.join(BUILD_ROOT, d) for d in os.listdir(BUILD_ROOT)]
     except FileNotFoundError:
         return
-    ents = [e for e in ents if os.path.isdir(e) and not os.path.basename(e).startswith("tmp")]
+    ents = [e for e in ents if os.path.isdir(e) and not os.path.basename(e).startswith("tmp")
+            and os.path.basename(e) != "ansic"]
     ents.sort(key=lambda e: os.path.getmtime(e), reverse=True)
     for e in ents[keep:]:
         # never remove something a concurrent check may be executing
@@ -91,7 +95,7 @@ def build(variant):
     """Return path of the driver executable for VARIANT, building if needed."""
     v = VARIANTS[variant]
     th = _tree_hash()
-    key = hashlib.sha256((th + variant + repr(sorted(v.items(), key=str))).encode()).hexdigest()[:20]
+    key = hashlib.sha256((th + variant + repr(sorted(v.items(), key=str)) + ("+assert" if os.environ.get("VERIF_ASSERT") else "")).encode()).hexdigest()[:20]
     out = os.path.join(BUILD_ROOT, "%s-%s" % (variant.replace("+", "x"), key))
     exe = os.path.join(out, "drv")
     if os.path.exists(exe):
@@ -110,7 +114,7 @@ def build(variant):
         if any(s.startswith("yaep.") for s in libsrc):
             _run(["bison", "-o", os.path.join(tmp, "sgramm.c"), os.path.join(SRC, "sgramm.y")])
         base = [std, "-w", "-I" + tmp, "-I" + SRC]
-        if v.get("ndebug", True):
+        if v.get("ndebug", True) and not os.environ.get("VERIF_ASSERT"):
             base.append("-DNDEBUG")
         base += v["flags"]
         jobs = []
